@@ -59,6 +59,12 @@ Definition check_string (d c : list Z) (m : smode) (ss : list (list Z)) (real : 
   (if list_eqb (string_enc_with (fun _ => tbl_c d c) m ss) real then 0 else 2) +
   (match string_dec (fun _ => tbl_d c d) real with Some r => if lists_eqb r ss then 0 else 4 | None => 4 end).
 
+(* version-1 string block built by the real packStringV1: 2 the model block differs; 4 the model reader does not return
+   the strings from the real bytes *)
+Definition check_string_v1 (ss : list (list Z)) (real : list Z) : Z :=
+  (if list_eqb (string_block_v1 ss) real then 0 else 2) +
+  (match string_dec (fun _ _ => None) real with Some r => if lists_eqb r ss then 0 else 4 | None => 4 end).
+
 (* WAL frame: real frame bytes, and the model's verdict on every strict prefix (number of prefixes NOT rejected) *)
 Fixpoint count_accepted_prefixes (wd : list Z -> option (list Z)) (k : nat) (bs : list Z) : Z :=
   match k with
